@@ -1,4 +1,5 @@
 import RtenVerif.Lemmas.Overlap
+import RtenVerif.Lemmas.OverlapCompleteOps
 
 /-!
 # C08 — The overlap check never admits aliasing layouts
@@ -81,5 +82,198 @@ example : mayOverlap [(4, 3), (4, 4)] = true ∧ bruteInjective [(4, 3), (4, 4)]
 
 /-- A genuinely overlapping (broadcast) layout is rejected. -/
 example : mayOverlap [(5, 1), (5, 0)] = true := by decide
+
+/-! ## C08.T2 — completeness on the advertised class
+
+"Layouts obtained by slicing, permuting or reshaping a contiguous layout are always
+accepted."  Vocabulary (`Lemmas/OverlapComplete*.lean`): `keys dims` are the `(stride, size)`
+pairs of the non-unit dims in their original order, `span (stride, size) = (size-1)*stride`,
+`Passes m L` = the `stepsOver` loop started at `m` does not report overlap,
+`NoZero dims` = no empty dim, `StepsOverSorted dims` = the code's sorted check passes,
+`DomChain dims` = *some* ordering of `keys dims` passes. -/
+
+/-- **C08.T2a** (code paths) For a layout with no empty dim, acceptance is exactly: contiguous
+fast path or the sorted check passes. -/
+theorem c08_accept_iff (dims : List (Nat × Nat)) (hz : NoZero dims) :
+    mayOverlap dims = false ↔ isContiguous dims = true ∨ StepsOverSorted dims :=
+  mayOverlap_false_iff hz
+
+/-- **C08.T2a** (semantic lemma, exchange argument) The code's *sorted* check passes iff the
+non-unit `(stride, size)` pairs can be put in SOME order in which every stride exceeds the
+total span `Σ (size_j - 1) * stride_j` of the pairs before it.  (In a passing order the
+strides are strictly increasing, so it is the sorted order.) -/
+theorem c08_sorted_iff_dominance_chain (dims : List (Nat × Nat)) (hz : NoZero dims) :
+    StepsOverSorted dims ↔
+      ∃ L, L.Perm (keys dims) ∧ ∀ L1 x L2, L = L1 ++ x :: L2 → spanSum L1 < x.1 := by
+  rw [stepsOverSorted_iff_domChain hz]
+  unfold DomChain
+  constructor
+  · rintro ⟨L, hp, h⟩
+    refine ⟨L, hp, fun L1 x L2 hL => ?_⟩
+    simpa using (passes_iff_dominates L 0).mp h L1 x L2 hL
+  · rintro ⟨L, hp, h⟩
+    refine ⟨L, hp, (passes_iff_dominates L 0).mpr (fun L1 x L2 hL => ?_)⟩
+    simpa using h L1 x L2 hL
+
+/-- **C08.T2a** Acceptance, independent of the sort, the fast path and the dimension order:
+a layout is accepted iff it is empty or its non-unit dims form a dominance chain in some
+order.  No hypothesis. -/
+theorem c08_accept_iff_domChain (dims : List (Nat × Nat)) :
+    mayOverlap dims = false ↔ ¬ NoZero dims ∨ DomChain dims :=
+  accepted_iff dims
+
+/-- **C08.T2a** The verdict is invariant under any permutation of the dimensions
+(`permuted`, `transposed`, `move_axis`).  No hypothesis; note that the contiguous fast path
+alone is *not* permutation invariant. -/
+theorem c08_accept_perm (dims dims' : List (Nat × Nat)) (h : dims.Perm dims') :
+    mayOverlap dims = mayOverlap dims' :=
+  accept_perm h
+
+/-- Non-vacuity: the row-major 4×5×6 layout and its axis reversal get the same verdict although
+only the first takes the fast path; the sorted check on the second really runs. -/
+example : [(6, 1), (5, 6), (4, 30)].Perm [(4, 30), (5, 6), (6, 1)] ∧
+    isContiguous [(4, 30), (5, 6), (6, 1)] = true ∧
+    isContiguous [(6, 1), (5, 6), (4, 30)] = false ∧
+    mayOverlap [(6, 1), (5, 6), (4, 30)] = false ∧
+    NoZero [(6, 1), (5, 6), (4, 30)] ∧
+    StepsOverSorted [(6, 1), (5, 6), (4, 30)] := by
+  refine ⟨?_, by decide, by decide, by decide, by decide, ?_⟩
+  · exact List.reverse_perm [(4, 30), (5, 6), (6, 1)]
+  · show (stepsOver 0 (sortedStrideShape [(6, 1), (5, 6), (4, 30)])).isSome = true
+    decide
+
+/-- Non-vacuity of the permutation theorem on the rejecting side (a broadcast layout stays
+rejected in any order). -/
+example : mayOverlap [(5, 0), (5, 1)] = true ∧ mayOverlap [(5, 1), (5, 0)] = true := by decide
+
+/-- **C08.T2b** Contiguous layouts are accepted (fast path; empty ones by the first test). -/
+theorem c08_contig_accepted (dims : List (Nat × Nat)) (hc : isContiguous dims = true) :
+    mayOverlap dims = false := by
+  simp [mayOverlap, hc]
+
+/-- **C08.T2b** … and they satisfy the dominance chain, innermost dimension first: every
+non-unit stride is one more than the total span of the dimensions inside it, so the
+operation theorems below apply to contiguous layouts too. -/
+theorem c08_contig_dominance (pre post : List (Nat × Nat)) (size stride : Nat)
+    (hz : NoZero (pre ++ (size, stride) :: post))
+    (hc : isContiguous (pre ++ (size, stride) :: post) = true) (h1 : size ≠ 1) :
+    stride = 1 + spanSum (keys post) ∧ DomChain (pre ++ (size, stride) :: post) :=
+  ⟨contig_stride_eq hz hc h1, contig_domChain hz hc⟩
+
+example : NoZero ([(4, 30)] ++ (5, 6) :: [(6, 1)]) ∧
+    isContiguous ([(4, 30)] ++ (5, 6) :: [(6, 1)]) = true ∧ (5 : Nat) ≠ 1 ∧
+    1 + spanSum (keys [(6, 1)]) = 6 := by decide
+
+/-- **C08.T2c** Slicing one dimension with a positive step (`slice`, `slice_axis`; what
+`slice_layout` computes: new stride `stride * step`, new size `size'` with the last selected
+element `(size' - 1) * step` still inside the old dimension, or an empty result) keeps the
+layout accepted.  Hypotheses are exactly `step ≥ 1` and the fit of the new size. -/
+theorem c08_slice_accepted (pre post : List (Nat × Nat)) (size stride size' step : Nat)
+    (hstep : 1 ≤ step) (hfit : size' = 0 ∨ (size' - 1) * step < size)
+    (h : mayOverlap (pre ++ (size, stride) :: post) = false) :
+    mayOverlap (pre ++ (size', stride * step) :: post) = false := by
+  rw [accept_perm List.perm_middle] at h ⊢
+  exact accept_slice_head hstep hfit h
+
+/-- **C08.T2c** `index_axis` / `SliceItem::Index` (drop a dimension that has a valid index,
+i.e. is not empty) keeps the layout accepted. -/
+theorem c08_index_axis_accepted (pre post : List (Nat × Nat)) (size stride : Nat)
+    (hsz : 1 ≤ size) (h : mayOverlap (pre ++ (size, stride) :: post) = false) :
+    mayOverlap (pre ++ post) = false := by
+  rw [accept_perm List.perm_middle] at h
+  exact accept_drop_head hsz h
+
+/-- **C08.T2c** Both halves of `split_at(axis, mid)` (`mid ≤ size`) are accepted. -/
+theorem c08_split_at_accepted (pre post : List (Nat × Nat)) (size stride mid : Nat)
+    (hmid : mid ≤ size) (h : mayOverlap (pre ++ (size, stride) :: post) = false) :
+    mayOverlap (pre ++ (mid, stride) :: post) = false ∧
+    mayOverlap (pre ++ (size - mid, stride) :: post) = false := by
+  have h1 := c08_slice_accepted pre post size stride mid 1 (Nat.le_refl _)
+    (by omega) h
+  have h2 := c08_slice_accepted pre post size stride (size - mid) 1 (Nat.le_refl _)
+    (by omega) h
+  simpa using And.intro h1 h2
+
+/-- **C08.T2c** Inserting or removing a size-1 axis with any stride (`insert_axis`,
+`squeezed`, `remove_axis`) does not change the verdict. -/
+theorem c08_unit_axis (pre post : List (Nat × Nat)) (s : Nat) :
+    mayOverlap (pre ++ (1, s) :: post) = mayOverlap (pre ++ post) := by
+  rw [accept_perm List.perm_middle]
+  exact accept_unit_head s _
+
+/-- Non-vacuity for the operation theorems: the accepted, non-contiguous layout
+`[(4,30),(5,6),(6,1)]ᵀ`-like `[(6,1),(4,30),(5,6)]`, sliced `1..5 step 2` on the last axis. -/
+example : (1 : Nat) ≤ 2 ∧ ((2 : Nat) = 0 ∨ (2 - 1) * 2 < 5) ∧
+    mayOverlap ([(6, 1), (4, 30)] ++ (5, 6) :: []) = false ∧
+    isContiguous ([(6, 1), (4, 30)] ++ (5, 6) :: []) = false ∧
+    mayOverlap ([(6, 1), (4, 30)] ++ (2, 6 * 2) :: []) = false := by decide
+
+/-- Layouts reachable from a contiguous layout by view operations.  `dims` are
+`(size, stride)` pairs, outermost first.
+* `contig`  – any layout `is_contiguous` accepts (this includes every `reshaped` result of a
+  contiguous tensor, and `from_shape` layouts);
+* `perm`    – `permuted` / `transposed` / `move_axis` (any reordering of the dims);
+* `slice`   – `slice` / `slice_axis` / `split_at` of one axis with step `≥ 1`
+  (`SliceItem::Range`; negative steps are rejected by `slice_layout` with `InvalidStep`);
+* `index`   – `index_axis` / `SliceItem::Index` / removing a size-1 axis;
+* `insertUnit` – `insert_axis` with whatever stride the implementation chooses. -/
+inductive Derived : List (Nat × Nat) → Prop
+  | contig {dims : List (Nat × Nat)} : isContiguous dims = true → Derived dims
+  | perm {dims dims' : List (Nat × Nat)} : Derived dims → dims.Perm dims' → Derived dims'
+  | slice {pre post : List (Nat × Nat)} {size stride size' step : Nat} :
+      Derived (pre ++ (size, stride) :: post) → 1 ≤ step →
+      (size' = 0 ∨ (size' - 1) * step < size) →
+      Derived (pre ++ (size', stride * step) :: post)
+  | index {pre post : List (Nat × Nat)} {size stride : Nat} :
+      Derived (pre ++ (size, stride) :: post) → 1 ≤ size → Derived (pre ++ post)
+  | insertUnit {pre post : List (Nat × Nat)} {s : Nat} :
+      Derived (pre ++ post) → Derived (pre ++ (1, s) :: post)
+
+/-- **C08.T2** Completeness on the advertised class: every layout derived from a contiguous
+one by any finite sequence of permute / slice-with-positive-step / index / unit-axis
+operations is accepted by `may_have_internal_overlap`, for every rank. -/
+theorem c08_derived_accepted (dims : List (Nat × Nat)) (h : Derived dims) :
+    mayOverlap dims = false := by
+  induction h with
+  | contig hc => exact c08_contig_accepted _ hc
+  | perm _ hp ih => rw [← accept_perm hp]; exact ih
+  | slice _ hstep hfit ih => exact c08_slice_accepted _ _ _ _ _ _ hstep hfit ih
+  | index _ hsz ih => exact c08_index_axis_accepted _ _ _ _ hsz ih
+  | insertUnit _ ih => rw [c08_unit_axis]; exact ih
+
+/-- Non-vacuity: a transposed, stepped 3-D layout.  Start from the contiguous 4×5×6 layout,
+slice axis 1 with `::2` (5 → 3, stride 6 → 12), slice axis 2 with `1..6:3` (6 → 2, stride
+1 → 3), insert a unit axis with stride 99 and move the innermost axis to the front.  The
+result is derived, not contiguous, and has 24 distinct valid indices. -/
+example : Derived [(2, 3), (4, 30), (1, 99), (3, 12)] ∧
+    isContiguous [(2, 3), (4, 30), (1, 99), (3, 12)] = false ∧
+    mayOverlap [(2, 3), (4, 30), (1, 99), (3, 12)] = false := by
+  refine ⟨?_, by decide, by decide⟩
+  have h0 : Derived ([(4, 30)] ++ (5, 6) :: [(6, 1)]) := .contig (by decide)
+  have h1 : Derived ([(4, 30)] ++ (3, 6 * 2) :: [(6, 1)]) := .slice h0 (by omega) (by omega)
+  have h2 : Derived ([(4, 30), (3, 12)] ++ (2, 1 * 3) :: []) :=
+    .slice (pre := [(4, 30), (3, 12)]) (post := []) (size := 6) (stride := 1) h1
+      (by omega) (by omega)
+  have h3 : Derived ([(4, 30)] ++ (1, 99) :: [(3, 12), (2, 3)]) :=
+    .insertUnit (pre := [(4, 30)]) (post := [(3, 12), (2, 3)]) h2
+  refine .perm h3 ?_
+  exact (List.perm_append_comm (l₁ := [(4, 30), (1, 99), (3, 12)]) (l₂ := [(2, 3)]))
+
+/-- Corollary (T2 ∘ T1): derived layouts never alias. -/
+theorem c08_derived_injective (dims : List (Nat × Nat)) (i j : List Nat) (h : Derived dims)
+    (hi : ValidIdx dims i) (hj : ValidIdx dims j) (hoff : offset dims i = offset dims j) :
+    i = j :=
+  c08_no_overlap_injective dims i j (c08_derived_accepted dims h) hi hj hoff
+
+/-- The characterisation is exact on the rejecting side too: the documented false positive
+`[4,4]/[3,4]` (injective, see T1's examples) is not a dominance chain in any order, and a
+broadcast layout is not derived. -/
+example : ¬ DomChain [(4, 3), (4, 4)] := fun h => by
+  have := (c08_accept_iff_domChain _).mpr (Or.inr h)
+  revert this; decide
+
+example : ¬ Derived [(5, 1), (5, 0)] := fun h => by
+  have := c08_derived_accepted _ h
+  revert this; decide
 
 end RtenVerif.Overlap
